@@ -192,14 +192,19 @@ pub struct Chk {
     pub max_samples_per_kind: usize,
     /// every n-th obligation is also sent to z3-new and cvc5 (0 = never)
     pub cross_every: u64,
+    /// ask the other installed solvers when the primary one answers unknown
+    pub fallbacks: bool,
     sampled: BTreeMap<String, usize>,
 }
 impl Chk {
     pub fn new(mode: Mode, timeout_ms: u64) -> Chk {
-        Chk { rep: Report::default(), sess: Session::new(mode, timeout_ms), cfg_name: String::new(), max_samples_per_kind: 1, cross_every: 97, sampled: BTreeMap::new() }
+        Chk { rep: Report::default(), sess: Session::new(mode, timeout_ms), cfg_name: String::new(), max_samples_per_kind: 1, cross_every: 97, fallbacks: true, sampled: BTreeMap::new() }
+    }
+    pub fn new_with_solver(mode: Mode, timeout_ms: u64, solver: &str) -> Chk {
+        Chk::with_session(Session::with_solver(mode, timeout_ms, solver, (11, 53)))
     }
     pub fn with_session(sess: Session) -> Chk {
-        Chk { rep: Report::default(), sess, cfg_name: String::new(), max_samples_per_kind: 1, cross_every: 97, sampled: BTreeMap::new() }
+        Chk { rep: Report::default(), sess, cfg_name: String::new(), max_samples_per_kind: 1, cross_every: 97, fallbacks: true, sampled: BTreeMap::new() }
     }
     pub fn begin_config(&mut self, name: &str) {
         self.cfg_name = name.to_string();
@@ -242,7 +247,7 @@ impl Chk {
         self.rep.obligations += 1;
         *self.rep.kinds.entry(kind.to_string()).or_default() += 1;
         let (mut a, vals) = self.ask(asserts, get);
-        if let Answer::Unknown(_) = a {
+        if let (Answer::Unknown(_), true) = (&a, self.fallbacks) {
             // the primary solver gave up: ask the other installed solvers in fresh processes; only a definite
             // `unsat` is accepted from them (a `sat` needs a model from the primary encoding to be replayed)
             for alt in ["z3-new", "cvc5", "z3"] {
@@ -366,6 +371,12 @@ where
 {
     let total = Mutex::new(Report::default());
     let next = Mutex::new(0usize);
+    let mut items = items;
+    if let Some(n) = std::env::var("VERIF_MAX_ITEMS").ok().and_then(|s| s.parse::<usize>().ok()) {
+        // debugging aid only: never set by the registered commands
+        let skip = std::env::var("VERIF_SKIP_ITEMS").ok().and_then(|s| s.parse::<usize>().ok()).unwrap_or(0);
+        items = items.into_iter().skip(skip).take(n).collect();
+    }
     let items = &items;
     let work = &work;
     std::thread::scope(|s| {
